@@ -341,6 +341,11 @@ pub fn run(cfg: &Cfg) {
             }
         }
     }
+    // a literal backslash followed by `u` and four hex digits (captured output that prints a JSON or Java
+    // escape, a path like `D:\ufeed`): six characters of text, not an escape
+    for t in ["\\u00e9", "D:\\ufeed", "\\u0041", "x\\u000ay", "\\\\u00e9", "\\u00e9\\u00e9", "\"\\u0022", "\\ud83d\\ude00", "\\uD800", "\\u12", "\\u123g", "\\U00e9", "\\n\\u000a\n"] {
+        case(&mut sink, &mut model, ed[0], &link_with(t), "backslash-u-hex");
+    }
     sink.note(&format!("one-character sweep: {} scalar values (all below U+0300, then a stride); all 3-character strings over {:?}", swept, alpha));
     sink.finish(&cfg.out, serde_json::json!({}));
 }
